@@ -55,6 +55,9 @@ func (c *Constraints) transform(v reflect.Value) {
 		switch v.Kind() {
 		case reflect.Interface:
 			// in case we passed a pointer to an interface which is a string
+			if v.IsNil() {
+				break
+			}
 			i := v.Elem().Interface()
 			if s, ok := i.(string); ok {
 				v.Set(reflect.ValueOf(strings.ToUpper(s)))
@@ -71,6 +74,9 @@ func (c *Constraints) transform(v reflect.Value) {
 		switch v.Kind() {
 		case reflect.Interface:
 			// in case we passed a pointer to an interface which is a string
+			if v.IsNil() {
+				break
+			}
 			i := v.Elem().Interface()
 			if s, ok := i.(string); ok {
 				v.Set(reflect.ValueOf(strings.ToLower(s)))
